@@ -34,6 +34,7 @@ RULE = (
 ASSUMPTIONS = [
     "what a displaced universe receives (None or a fresh default law set) is not pinned",
     "law sets and universes are only manipulated through the two public setters and constructors",
+    "universe / law-set subclasses may define __len__/__bool__ (truth value False) but not __eq__",
 ]
 
 
@@ -61,11 +62,16 @@ def enumerate_cases(tier, shard=0, nshards=1):
                 ops = [list(o) for o in seq]
                 for init in inits:
                     yield {"t": "hist", "nu": nu, "nl": nl, "init": init, "ops": ops}
+                    if k <= depth - 1:
+                        # the same histories over a universe class that is falsy while empty
+                        # (defines __len__) and a law-set class with __bool__ False
+                        yield {"t": "hist", "nu": nu, "nl": nl, "init": init, "ops": ops, "ucls": [1], "lcls": [1]}
 
-    n = sum(len(alpha) ** k for k in range(depth + 1)) * len(inits)
+    n = (sum(len(alpha) ** k for k in range(depth + 1)) + sum(len(alpha) ** k for k in range(depth))) * len(inits)
     return gen(), (
         f"all {n} histories: every sequence of <= {depth} assignments over 2 universes x "
-        f"(2 law sets + None) from both sides, from all 9 initial configurations"
+        f"(2 law sets + None) from both sides, from all 9 initial configurations; sequences of <= {depth - 1} "
+        f"assignments are repeated with a falsy-while-empty Universe subclass and a falsy UniverseLaws subclass"
     )
 
 
@@ -73,10 +79,12 @@ def strategy(tier):
     maxlen = 30 if tier == "quick" else 60
 
     hist = st.builds(
-        lambda nu, nl, init, ops: {
+        lambda nu, nl, init, ops, ucls, lcls: {
             "t": "hist",
             "nu": nu,
             "nl": nl,
+            "ucls": ucls,
+            "lcls": lcls,
             "init": [(x % (nl + 1)) - 1 for x in init[:nu]] + [-1] * (nu - len(init[:nu])),
             "ops": [[s, i % (nu if s == 0 else nl), j % ((nl if s == 0 else nu) + 1)] for s, i, j in ops],
         },
@@ -84,6 +92,8 @@ def strategy(tier):
         st.integers(2, 3),
         st.lists(st.integers(0, 3), max_size=3),
         st.lists(st.tuples(st.integers(0, 1), st.integers(0, 5), st.integers(0, 11)), max_size=maxlen),
+        st.lists(st.integers(0, 1), min_size=1, max_size=3),
+        st.lists(st.integers(0, 1), min_size=1, max_size=3),
     )
     wl = st.one_of(
         st.none(),
@@ -113,8 +123,17 @@ def _check_hist(case):
     from edgegraph.structure import Universe
     from edgegraph.structure.universe import UniverseLaws
 
+    from eglib import classes as C
+
+    class FalsyLaws(UniverseLaws):
+        def __bool__(self):
+            return False
+
     nu, nl = case["nu"], case["nl"]
-    L = [UniverseLaws() for _ in range(nl)] + [None]
+    ucls = case.get("ucls") or [0]
+    lcls = case.get("lcls") or [0]
+    UC = lambda k: (Universe, C.CountedUniverse)[ucls[k % len(ucls)] % 2]
+    L = [(UniverseLaws, FalsyLaws)[lcls[k % len(lcls)] % 2]() for k in range(nl)] + [None]
     U = []
     all_laws = [x for x in L if x is not None]
     classes = set()
@@ -145,12 +164,12 @@ def _check_hist(case):
     for k, sel in enumerate(case["init"][:nu]):
         try:
             if sel < 0:
-                u = Universe()
+                u = UC(k)()
             else:
                 if L[sel].applies_to is not None:
                     classes.add("init-gives-law-set-in-use")
                     nt = True
-                u = Universe(laws=L[sel])
+                u = UC(k)(laws=L[sel])
         except Exception as e:  # noqa
             raise Violation("constructor-raised", f"Universe(laws=L{sel}) for U{k}: {e!r}")
         U.append(u)
@@ -197,7 +216,11 @@ def _check_hist(case):
             if new is not None:
                 require(new.laws is lw, "assignment-post", f"{where}: U.laws is not L")
         inv(where)
-    return dict(nt=nt, classes=sorted(classes), enum_scope=(nu == 2 and nl == 2 and len(case["ops"]) <= 4))
+    if any(ucls):
+        classes.add("falsy-(empty, __len__)-universe-class")
+    if any(lcls):
+        classes.add("falsy-law-set-class")
+    return dict(nt=nt, classes=sorted(classes), enum_scope=(nu == 2 and nl == 2 and len(case["ops"]) <= 4 and not any(ucls) and not any(lcls)))
 
 
 _TYPES = None
